@@ -647,4 +647,34 @@ theorem getEntries_bare_error_only_for_bad_range (s e : Int) (r : Rsp (List Entr
     · rw [h'] at h; cases h
     · rw [h'] at h; cases h
 
+/-! ### construction: a client GIVEN a key never ends up without a verifier -/
+
+/-- **given_key_fails_closed.** When a key option is set — whatever it contains: a well-formed key, garbage, only white space — `New`
+either fails or builds a client whose verifier is exactly the key the option holds; it never builds a client without a verifier. -/
+theorem given_key_fails_closed (parsed : Option Key) (v : Option Key) (h : newClient true parsed = .ok v) :
+    ∃ key, v = some key ∧ parsed = some key := by
+  unfold newClient at h
+  simp only [show Gen.clientKeyOptionFailsClosed = true from rfl, Bool.not_true, Bool.false_eq_true, if_false] at h
+  cases parsed with
+  | none => simp at h
+  | some k => simp at h; exact ⟨k, h.symm, rfl⟩
+
+/-- **given_key_sth_verified.** End to end: a client constructed from a set key option that hands back an STH has verified it under the
+key the option holds (so a malformed, empty-looking or white-space-only option cannot switch verification off). -/
+theorem given_key_sth_verified (P : Prims) (parsed v : Option Key) (r : Rsp SthBody) (sth : STH)
+    (hn : newClient true parsed = .ok v) (h : getSTH P v r = .ok sth) :
+    ∃ key, parsed = some key ∧ verifySTH P key sth = .ok := by
+  obtain ⟨key, hv, hp⟩ := given_key_fails_closed parsed v hn
+  subst hv
+  exact ⟨key, hp, (sth_verified P key r sth h).2.2.1⟩
+
+/-- only with no key option at all is a keyless client built; a malformed option is an error -/
+theorem newClient_cases (given : Bool) (parsed : Option Key) :
+    newClient given parsed = (if !given then .ok none else match parsed with | some k => .ok (some k) | none => .err) := by
+  cases given <;> cases parsed <;> rfl
+
+example : newClient true none = (.err : Res (Option Key)) := by decide
+example : newClient false none = (.ok none : Res (Option Key)) := by decide
+example : newClient true (some { kind := .ecdsa }) = .ok (some { kind := .ecdsa }) := by decide
+
 end C12
